@@ -21,4 +21,6 @@ for id in $ids; do
   mkdir -p .lake; flock .lake/verif.lock lake build "Bermuda.Properties.$id" "drv_$lid" 2>&1 | tail -3 || true
   if [ "${PIPESTATUS[0]}" != "0" ]; then echo "WARN: build of $id failed"; rc=1; fi
 done
+# the library root imports every property module together: catches name clashes between properties
+flock .lake/verif.lock lake build Bermuda 2>&1 | tail -2 || echo "WARN: root library build failed"
 exit 0
